@@ -6,7 +6,8 @@ LEVEL = "model_checking"
 
 def run(ctx):
   return _shared.run_clauses(ctx, "C02.", lambda e: e['k'] == 'B',
-                             "every successful call (bundles, undo, redo, Calculate) from InitNewDoc on: the specification's own document, advanced only by DocActions!Apply of the stored actions, must equal the engine's observed tables, rows and cells (C02.replay) and every stored action must be applicable at its position (C02.applicable)")
+                             "every successful call (bundles, undo, redo, Calculate) from InitNewDoc on: the specification's own document, advanced only by DocActions!Apply of the stored actions, must equal the engine's observed tables, rows and cells (C02.replay) and every stored action must be applicable at its position (C02.applicable)",
+                             corpora=_shared.BOTH)
 
 
 def replay(ctx, data):
